@@ -92,15 +92,19 @@ def _leaves_block(block):
 def _rebound(stmts_):
     """(names rebound, names whose object is stored into) by the statements, at any depth"""
     names, stored = set(), set()
+    pointer_args = _rebound.pointer_args = set()
     for st in stmts_:
         for n in ast.walk(st):
             if isinstance(n, ast.Name) and isinstance(n.ctx, (ast.Store, ast.Del)):
                 names.add(n.id)
             elif isinstance(n, ast.Call):
-                # lowered Cython `f(&x)` is `f(+x)`: the callee may write x
+                # lowered Cython `f(&x)` is `f(+x)`: the callee may write x; a pointer variable handed on (`memset(p, ..)`) is
+                # reported as stored-into, the caller maps it to what it may point at
                 for a in n.args:
                     if isinstance(a, ast.UnaryOp) and isinstance(a.op, ast.UAdd) and isinstance(a.operand, ast.Name):
                         names.add(a.operand.id)
+                    elif isinstance(a, ast.Name):
+                        pointer_args.add(a.id)
             elif isinstance(n, (ast.Subscript, ast.Attribute)) and isinstance(n.ctx, (ast.Store, ast.Del)):
                 b = n
                 while isinstance(b, (ast.Subscript, ast.Attribute)):
@@ -166,6 +170,9 @@ def facts_at(func, node):
 
     def kill(stmts_):
         names, stored = _rebound(stmts_)
+        # a name handed to a call that may point at an address-taken variable (`p = &x; memset(p, ..)`): x may be written
+        for p_ in getattr(_rebound, "pointer_args", ()):
+            names |= _alias.closure_of({p_}, grp) & addr_taken
         for st_ in stmts_:
             stored |= _inplace_written(st_, grp)
         if stored:
@@ -175,22 +182,38 @@ def facts_at(func, node):
         if names or stored:
             facts[:] = [f for f in facts if not _mentions(f, names, stored)]
 
+    def kill_test(test):
+        """what the test itself writes while it is evaluated (a walrus, `f(&x)`, a mutating call) is not known afterwards"""
+        kill([ast.Expr(value=test)])
+        walrus = {n.target.id for n in ast.walk(test) if isinstance(n, ast.NamedExpr) and isinstance(n.target, ast.Name)}
+        if walrus:
+            facts[:] = [f for f in facts if not _mentions(f, walrus, set())]
+
     def descend(block):
         for k, st in enumerate(block):
             if contains(st):
                 # guard clauses before st in this block
                 for j, prev in enumerate(block[:k]):
-                    kill([prev])
                     if isinstance(prev, ast.If) and not prev.orelse and _leaves_block(prev.body):
+                        kill([prev])
                         facts.extend(conjuncts(negate(prev.test)))
+                        kill_test(prev.test)
                     elif isinstance(prev, ast.If) and prev.orelse and _leaves_block(prev.orelse) and not _leaves_block(prev.body):
+                        # the test held when the body was entered: what the body (and the test itself) writes afterwards kills it
+                        kill([ast.Expr(value=prev.test)])
                         facts.extend(conjuncts(prev.test))
+                        kill_test(prev.test)
+                        kill(list(prev.body))
+                    else:
+                        kill([prev])
                 if isinstance(st, ast.If):
                     if any(contains(b) for b in st.body):
                         facts.extend(conjuncts(st.test))
+                        kill_test(st.test)
                         descend(st.body)
                     elif any(contains(b) for b in st.orelse):
                         facts.extend(conjuncts(negate(st.test)))
+                        kill_test(st.test)
                         descend(st.orelse)
                     return
                 if isinstance(st, (ast.For, ast.While, ast.AsyncFor)):
